@@ -273,7 +273,14 @@ func genCase(t *rapid.T) *caseSpec {
 func (c *caseSpec) buffer(t *rapid.T, calls *int) *buffer.Buffer {
 	var opts []buffer.Option
 	if c.expr != nil {
-		opts = append(opts, buffer.Retry(c.expr.src(false)))
+		src := c.expr.src(false)
+		if !buffer.IsValidExpression(src) {
+			t.Fatalf("IsValidExpression refuses the well-formed retry expression %q", src)
+		}
+		// Cond(true, x) is x; Cond(false, x) is nothing at all
+		opts = append(opts, buffer.Cond(true, buffer.Retry(src)), buffer.Cond(false, buffer.Retry("Attempts() < 100")), buffer.Cond(false, buffer.Retry("not an expression")))
+	} else {
+		opts = append(opts, buffer.Cond(false, buffer.Retry("Attempts() < 100")))
 	}
 	if c.memThr > 0 {
 		opts = append(opts, buffer.MemResponseBodyBytes(c.memThr))
